@@ -61,6 +61,10 @@ def run_entry(profile, features, entry, repo=None):
             I.explore([st], lambda t, e=entry: records.append(binary_record(I, e, t)))
     elif entry == "remove_subtree":
         records.extend(loop_entry(I, entry))
+    elif entry == "stamp":
+        records.extend(stamp_entry(I))
+    elif entry in ("free_node", "clear"):
+        records.extend(freelist_entry(I, entry))
     elif entry in ("detach", "remove"):
         for live in (True,):
             st = State()
@@ -82,12 +86,192 @@ def run_entry(profile, features, entry, repo=None):
         st.meta["args"] = ()
         st.meta["case"] = "any arena"
         I.push_call(st, "crate::arena::Arena<T>::new_node", [driver.arena_ref(), VOpaque("payload", "new")], None, None)
-        I.explore([st], lambda t, e=entry: records.append(alloc_record(I, e, t)))
+        I.explore([st], lambda t, e=entry: records.append(freelist_record(I, e, t)))
     else:
         raise ValueError("unknown entry " + entry)
     stats = {"entry": entry, "profile": profile, "terminals": len(records), "blocks": I.blocks_run, "statements": I.stmts_run,
              "forks": I.forks, "functions": sorted(I.fn_seen), "wall_s": round(time.time() - t0, 2)}
     return {"records": records, "stats": stats}
+
+
+STK = "crate::id::NodeStamp::"
+
+
+def _stage(I, states, fnkey, mkargs, keep):
+    """Run `fnkey` from each state (fresh frame stack); returns [(state, terminal kind, value, msg)]."""
+    out = []
+    for st in states:
+        s = st.copy()
+        s.frames = []
+        s.steps = 0
+        I.push_call(s, fnkey, mkargs(s), None, None)
+        I.explore([s], lambda t: out.append((t.st, t.kind, t.value, t.msg)))
+    return out
+
+
+def stamp_entry(I):
+    """C06: the generation arithmetic as piecewise-affine functions of the live stamp s in [0, MAX] (whole i16 range, symbolically)."""
+    recs = []
+    sym = ("st", "s")
+    st = State()
+    st.bounds[sym] = (0, I16_MAX)
+    slot = st.new_temp(VStruct(STAMP, (("0", VInt(Lin(0, sym, 1), 16, True)),)))
+    a = _stage(I, [st], STK + "as_removed", lambda s: [VRef(slot, (), True)], None)
+    for (s1, k1, v1, m1) in a:
+        lo, hi = s1.bounds[sym]
+        base = {"entry": "stamp", "s_range": [lo, hi], "as_removed_exit": k1, "msg": m1}
+        if k1 != "return":
+            base["exit"] = k1
+            recs.append(base)
+            continue
+        removed = s1.meta["temps"][slot[1]].get("0")
+        rlo, rhi = s1.term_bounds(removed.t)
+        base["removed_term"] = repr(removed.t)
+        base["removed_range"] = [rlo, rhi]
+        b = _stage(I, [s1], STK + "reuseable", lambda s: [s.meta["temps"][slot[1]]], None)
+        for (s2, k2, v2, m2) in b:
+            r2 = dict(base)
+            r2["s_range"] = list(s2.bounds[sym])
+            r2["reuseable_exit"] = k2
+            if k2 != "return":
+                r2["exit"] = k2
+                r2["msg"] = m2
+                recs.append(r2)
+                continue
+            r2["reuseable"] = v2.b
+            if not v2.b:
+                r2["exit"] = "retired"
+                recs.append(r2)
+                continue
+            c = _stage(I, [s2], STK + "reuse", lambda s: [VRef(slot, (), True)], None)
+            for (s3, k3, v3, m3) in c:
+                r3 = dict(r2)
+                r3["s_range"] = list(s3.bounds[sym])
+                r3["reuse_exit"] = k3
+                r3["exit"] = k3
+                r3["msg"] = m3
+                if k3 == "return":
+                    reused = s3.meta["temps"][slot[1]].get("0")
+                    r3["reused_term"] = repr(reused.t)
+                    r3["reused_range"] = list(s3.term_bounds(reused.t))
+                    ret = v3.get("0") if isinstance(v3, VStruct) else None
+                    r3["returned_same"] = ret is not None and ret.t == reused.t
+                    # reused - s over the range
+                    d = I.add_terms(reused.t, Lin(0, sym, 1), -1)
+                    r3["delta_range"] = list(s3.term_bounds(d))
+                recs.append(r3)
+    # is_removed decision table over the whole i16 range
+    st = State()
+    st.bounds[sym] = (I16_MIN, I16_MAX)
+    val = VStruct(STAMP, (("0", VInt(Lin(0, sym, 1), 16, True)),))
+    for (s1, k1, v1, m1) in _stage(I, [st], STK + "is_removed", lambda s: [val], None):
+        recs.append({"entry": "stamp", "table": "NodeStamp::is_removed", "s_range": list(s1.bounds[sym]), "exit": k1,
+                     "value": v1.b if k1 == "return" else None, "msg": m1})
+    # Node::is_removed and NodeId::is_removed on the two V cases
+    for live in (True, False):
+        st = State()
+        x = st.new_node(live, "arg:self")
+        for (s1, k1, v1, m1) in _stage(I, [st], "crate::node::Node<T>::is_removed", lambda s: [VRef(("node", x), (), False)], None):
+            recs.append({"entry": "stamp", "table": "Node::is_removed", "live": live, "exit": k1, "value": v1.b if k1 == "return" else None, "msg": m1})
+        for (s1, k1, v1, m1) in _stage(I, [st], NID + "is_removed", lambda s: [driver.arg_id(s, x), driver.arena_ref(False)], None):
+            recs.append({"entry": "stamp", "table": "NodeId::is_removed", "live": live, "exit": k1, "value": v1.b if k1 == "return" else None, "msg": m1})
+    # a stale id of a recycled slot: slot stamp = any later generation (strictly larger), must read as removed
+    st = State()
+    x = st.new_node(True, "arg:self")
+    old = ("ast", x)
+    st.bounds[old] = (0, I16_MAX)
+    idv = VStruct(NODEID, (("index1", VNonZero(Lin(1, ("idx", x), 1))), ("stamp", VStruct(STAMP, (("0", VInt(Lin(0, old, 1), 16, True)),)))))
+    for (s1, k1, v1, m1) in _stage(I, [st], NID + "is_removed", lambda s: [idv, driver.arena_ref(False)], None):
+        recs.append({"entry": "stamp", "table": "NodeId::is_removed(stale)", "exit": k1, "value": v1.b if k1 == "return" else None,
+                     "cmp": [list(map(str, k)) for k, v in s1.cmp.items()], "msg": m1})
+    return recs
+
+
+def fl_view(I, st):
+    """(pre, post) description of the *materialised / written* part of the free list (never unrolls the list)."""
+    def tgt(v):
+        if v is None:
+            return "unk"
+        if isinstance(v, VLazy):
+            if v.n == "arena":
+                if v.field not in st.arena_h0:
+                    return "unk"
+                v = st.arena_h0[v.field]
+            else:
+                if v.field not in st.nodes[v.n].h0:
+                    return "unk"
+                v = st.nodes[v.n].h0[v.field]
+        if isinstance(v, VEnum) and v.variant == "None":
+            return None
+        t = v.get("0").t
+        if t.sym and t.sym[0] == "idx" and t.c == 0:
+            return t.sym[1]
+        return models.slot_of_index(I, st, t)
+    pre = {"first": tgt(st.arena_h0.get("first_free_slot")), "last": tgt(st.arena_h0.get("last_free_slot"))}
+    post = {"first": tgt(I.read_arena(st, "first_free_slot")), "last": tgt(I.read_arena(st, "last_free_slot"))}
+    pren, postn = {}, {}
+    for k, r in st.nodes.items():
+        if r.fresh or "data" in r.cur:
+            d = r.cur.get("data")
+            if isinstance(d, VEnum) and d.variant == "NextFree":
+                postn[k] = tgt(d.get("0"))
+        if not r.fresh and not r.live0 and "nextfree" in r.h0:
+            pren[k] = tgt(r.h0["nextfree"])
+    return pre, post, pren, postn
+
+
+def freelist_record(I, entry, t, x=None):
+    rec, view = base_record(I, entry, t)
+    st = t.st
+    rec["op"] = entry
+    rec["class"] = "possible"
+    if t.kind == "undecided":
+        return rec
+    pre, post, pren, postn = fl_view(I, st)
+    rec["fl_pre"], rec["fl_post"], rec["fl_pre_next"], rec["fl_post_next"] = pre, post, pren, postn
+    rec["len"] = [repr(st.len0), repr(st.len)]
+    rec["x"] = x
+    rec["returned"] = st.node_of_id(t.value) if t.kind == "return" and t.value is not None else None
+    if x is not None:
+        sx = view.stamp_term(x)
+        rec["x_stamp_post"] = repr(sx)
+        rec["x_stamp_range"] = list(st.term_bounds(sx))
+        rec["x_stamp_pre_range"] = list(st.bounds.get(("st", x), (None, None)))
+    if rec["returned"] is not None:
+        k = rec["returned"]
+        rec["returned_fresh"] = st.nodes[k].fresh
+        rec["returned_stamp_range"] = list(st.term_bounds(view.stamp_term(k)))
+        rec["returned_links"] = [view.post(k, f) for f in LINKS]
+        rec["returned_data"] = view.post_raw(k, "data").variant
+        if not st.nodes[k].fresh:
+            rec["returned_prev_stamp_range"] = list(st.bounds.get(("st", k)))
+            d = I.add_terms(view.stamp_term(k), Lin(0, ("st", k), 1), 1)      # new + old(removed, negative)  (= new - |old|)
+            rec["returned_was_member"] = k in st.meta.get("freelist", ())
+    rec["other_writes"] = [e for e in st.events if e[0] == "write" and e[1] not in (x, rec["returned"]) and e[2] != "data"][:10]
+    rec["data_writes"] = [(e[1], e[3]) for e in st.events if e[0] == "write" and e[2] == "data"]
+    rec["drops"] = [(e[1], e[2]) for e in st.events if e[0] == "drop-data"]
+    rec["events"] = [e[0] for e in st.events if e[0] in ("push", "clear")]
+    rec["shape"] = "first=%s last=%s next=%s" % (pre["first"], pre["last"], sorted(pren.items()))
+    return rec
+
+
+def freelist_entry(I, entry):
+    records = []
+    if entry == "free_node":
+        st = State()
+        x = st.new_node(True, "arg:freed")
+        # precondition of the crate-internal free_node: the node has been unlinked (remove() does that first, see C04)
+        for f in LINKS:
+            st.set_h0_link(x, f, None)
+        st.meta["case"] = "x live, unlinked"
+        I.push_call(st, "crate::arena::Arena<T>::free_node", [driver.arena_ref(), driver.arg_id(st, x)], None, None)
+        I.explore([st], lambda t: records.append(freelist_record(I, entry, t, x)))
+    elif entry == "clear":
+        st = State()
+        st.meta["case"] = "any arena"
+        I.push_call(st, "crate::arena::Arena<T>::clear", [driver.arena_ref()], None, None)
+        I.explore([st], lambda t: records.append(freelist_record(I, entry, t)))
+    return records
 
 
 def loop_entry(I, entry):
@@ -376,6 +560,7 @@ def run_entries(profile, features, entries, repo=None, workers=None):
         else:
             results = [_job((profile, features, e, repo)) for e in todo]
         for e, r in results:
+            r = json.loads(json.dumps(r, default=str))      # same shape as a cache hit (tuples -> lists)
             r["cache"] = "miss"
             out[e] = r
             if "error" not in r:
